@@ -212,6 +212,8 @@ func buildError(s *Service, o *Outcome) error {
 		return e
 	case "service": // undeclared goa service error
 		return &goa.ServiceError{Name: o.ErrName, ID: "id1", Message: msg, Timeout: o.Flags[0], Temporary: o.Flags[1], Fault: o.Flags[2]}
+	case "joinservice": // undeclared goa service error only reachable through a multi-error wrapper
+		return errors.Join(errors.New("cleanup failed"), &goa.ServiceError{Name: o.ErrName, ID: "id1", Message: msg, Timeout: o.Flags[0], Temporary: o.Flags[1], Fault: o.Flags[2]})
 	case "plain":
 		return errors.New(msg)
 	}
@@ -266,6 +268,9 @@ type tap struct {
 }
 
 func (t *tap) Do(req *http.Request) (*http.Response, error) {
+	if a := t.st.scn.Accept; a != "" {
+		req.Header.Set("Accept", a) // the caller's content negotiation preference
+	}
 	var buf bytes.Buffer
 	if err := req.Write(&buf); err != nil {
 		t.st.add(Event{"ev": "wire_req_error", "error": err.Error()})
